@@ -182,7 +182,9 @@ type c08Client struct {
 	secret  string
 	cur     *c08Conn
 	zombies []*c08Conn        // abandoned by the client, not yet cleaned up by their node
-	closed  map[string]string // connID -> how it ended
+	closed  map[string]string // connID -> how it ended (one map shared by all clients of a history)
+	lost    []*c08Conn        // connections this identity lost to another client's handshake on them (still open)
+	cloudDirty string         // cloud-control view not judged (see judgeCloud) until the next keep-alive on cur
 	unsure  string            // the node dropped cur on its own and the harness has not yet played the adapter cleanup: no verdicts
 	lastNode int              // node of the most recent connect
 	broken  string            // signature of the running failure episode ("" = last lookup fine)
@@ -202,6 +204,8 @@ type c08World struct {
 	lastCl  int
 	herr    string
 	ctx     context.Context
+	spareID int64  // a provisioned second identity reused across the histories of a world
+	spareSecret string
 }
 
 func c08NodeName(i int) string { return fmt.Sprintf("node-%c", 'a'+i) }
@@ -243,8 +247,9 @@ func (w *c08World) close() {
 // reset forgets the clients of the previous history (all their connections are closed).
 func (w *c08World) reset(nClients int) {
 	w.clients = w.clients[:0]
+	closed := map[string]string{}
 	for i := 0; i < nClients; i++ {
-		w.clients = append(w.clients, &c08Client{idx: i, closed: map[string]string{}})
+		w.clients = append(w.clients, &c08Client{idx: i, closed: closed})
 	}
 	w.trace = w.trace[:0]
 	w.kinds = w.kinds[:0]
@@ -372,6 +377,90 @@ func (w *c08World) heartbeat(cl *c08Client) bool {
 	c.lastKA = c08Span{c0, r0}
 	w.ev(cl, "hb", "heartbeat "+c.id)
 	w.run.Count("heartbeats", 1)
+	return true
+}
+
+// provisionSpare registers one more identity (first connect, then close) that later
+// re-authenticates on other clients' connections.
+func (w *c08World) provisionSpare() {
+	mc, err := w.nodes[0].Connect("")
+	if err != nil {
+		w.harnessError("spare identity: connect: %v", err)
+		return
+	}
+	r, herr := mc.FirstConnect()
+	if herr != nil || r == nil || !r.Success || r.ClientID == 0 {
+		w.harnessError("spare identity: first connect: %v %+v", herr, r)
+		return
+	}
+	w.spareID, w.spareSecret = r.ClientID, r.SecretKey
+	mc.CloseByPeer()
+}
+
+// takeover: a second successful handshake (real challenge-response) on cl's live current
+// connection under ANOTHER client id. From then on `by` is located at that connection
+// (its most recent successful handshake); cl no longer owns a connection (the connection
+// it had stays open, so until it closes both "not connected" and that connection are
+// accepted answers for cl).
+func (w *c08World) takeover(cl, by *c08Client) bool {
+	c := cl.cur
+	if c == nil || cl.unsure != "" || by == cl || by.id == 0 || by.unsure != "" {
+		return false
+	}
+	w.settleDropped(by)
+	c0 := w.be.sync()
+	ok, err := c.mc.Login(by.id, by.secret, "control")
+	r0 := time.Now()
+	if !ok {
+		if _, alive := w.nodes[c.node].SM.GetConnection(c.id); !alive {
+			cl.unsure = "current connection dropped by its node"
+			w.run.Count("current_dropped_by_node", 1)
+			return false
+		}
+		w.harnessError("re-login as another client on %s refused: %v", w.nodes[c.node].NodeID, err)
+		return false
+	}
+	if by.cur != nil {
+		by.zombies = append(by.zombies, by.cur)
+	}
+	c.hs = c08Span{c0, r0}
+	c.lastKA = c.hs
+	c.chain = true
+	by.cur, by.cleaned, by.lastNode, by.cloudDirty = c, 0, c.node, ""
+	cl.cur = nil
+	cl.lost = append(cl.lost, c)
+	w.ev(by, "ri", fmt.Sprintf("relogin-as-c%d on c%d's connection %s@%s", by.idx, cl.idx, c.id, w.nodes[c.node].NodeID))
+	w.run.Count("identity_changes|"+w.be.name, 1)
+	return true
+}
+
+// reloginZombie: the client authenticates again on its newest abandoned (still open)
+// connection, which thereby becomes its current connection again.
+func (w *c08World) reloginZombie(cl *c08Client) bool {
+	if len(cl.zombies) == 0 || cl.unsure != "" {
+		return false
+	}
+	z := cl.zombies[len(cl.zombies)-1]
+	c0 := w.be.sync()
+	ok, err := z.mc.Login(cl.id, cl.secret, "control")
+	r0 := time.Now()
+	if !ok {
+		if _, alive := w.nodes[z.node].SM.GetConnection(z.id); !alive {
+			return false // swept meanwhile; noteSweeps will record it
+		}
+		w.harnessError("re-login on abandoned connection refused: %v", err)
+		return false
+	}
+	cl.zombies = cl.zombies[:len(cl.zombies)-1]
+	if cl.cur != nil {
+		cl.zombies = append(cl.zombies, cl.cur)
+	}
+	z.hs = c08Span{c0, r0}
+	z.lastKA = z.hs
+	z.chain = true
+	cl.cur, cl.cleaned, cl.lastNode, cl.cloudDirty = z, 0, z.node, ""
+	w.ev(cl, "rz", fmt.Sprintf("relogin-on-abandoned %s@%s", z.id, w.nodes[z.node].NodeID))
+	w.run.Count("relogins_on_abandoned|"+w.be.name, 1)
 	return true
 }
 
@@ -651,12 +740,24 @@ func (w *c08World) check() {
 		w.settleDropped(cl)
 	}
 	all := make([][]c08Answer, len(w.clients))
+	type cloudAnswer struct {
+		node string
+		err  error
+	}
+	cloud := make([][]cloudAnswer, len(w.clients))
 	for ci, cl := range w.clients {
 		if cl.id == 0 {
 			continue
 		}
 		for ni := range w.nodes {
 			all[ci] = append(all[ci], w.ask(cl, ni))
+		}
+		// the cloud-control view of the same question (shared client runtime state)
+		for _, n := range w.nodes {
+			var a cloudAnswer
+			a.node, a.err = n.CC.GetClientNodeID(cl.id)
+			cloud[ci] = append(cloud[ci], a)
+			w.run.Count("cloud_lookups", 1)
 		}
 	}
 	// what the nodes' own sweepers did while we were asking is taken into account
@@ -668,12 +769,70 @@ func (w *c08World) check() {
 				w.run.Violation(p.sig, p.detail)
 			}
 		}
+		for ni, a := range cloud[ci] {
+			if p := w.judgeCloud(cl, ni, a.node, a.err); p != nil {
+				w.run.Violation(p.sig, p.detail)
+			}
+		}
 	}
 	for _, cl := range w.clients {
 		if cl.cleaned > 0 {
 			cl.cleaned--
 		}
 	}
+}
+
+// judgeCloud judges the cloud-control answer (GetClientNodeID: node id, "" = offline)
+// with the same reference as the connection-state lookup. The runtime state behind it
+// has its own 90 s lifetime, far beyond any history here.
+func (w *c08World) judgeCloud(cl *c08Client, asker int, got string, err error) *c08Pending {
+	be := w.be.name
+	mk := func(sig string, expected string) *c08Pending {
+		return &c08Pending{sig: sig, detail: map[string]any{
+			"backend": be, "ttl": w.ttl.String(), "sweeper": w.sweeper, "nodes": len(w.nodes),
+			"asked_node": w.nodes[asker].NodeID, "client": cl.idx, "trace": w.tail(),
+			"view": "CloudControl.GetClientNodeID", "got": fmt.Sprintf("node=%q err=%v", got, err), "expected": expected,
+		}}
+	}
+	if cl.unsure != "" {
+		w.run.Count("cloud_unjudged_current_dropped", 1)
+		return nil
+	}
+	if cl.cloudDirty != "" {
+		w.run.Count("cloud_unjudged_"+cl.cloudDirty, 1)
+		return nil
+	}
+	c := cl.cur
+	if c == nil {
+		if err != nil || got == "" {
+			w.run.Count("cloud_offline_ok", 1)
+			return nil
+		}
+		for _, z := range cl.zombies {
+			if w.nodes[z.node].NodeID == got {
+				w.run.Count("cloud_tolerated_abandoned_conn", 1)
+				return nil
+			}
+		}
+		for _, z := range cl.lost {
+			if w.nodes[z.node].NodeID == got && cl.closed[z.id] == "" {
+				w.run.Count("cloud_tolerated_abandoned_conn", 1)
+				return nil
+			}
+		}
+		return mk("C08:cloud-state|online-after-close|backend="+be, "offline")
+	}
+	want := w.nodes[c.node].NodeID
+	switch {
+	case err != nil:
+		return mk("C08:cloud-state|got=error|backend="+be, want)
+	case got == want:
+		w.run.Count("cloud_found_ok", 1)
+		return nil
+	case got == "":
+		return mk("C08:cloud-state|got=offline|backend="+be, want)
+	}
+	return mk("C08:cloud-state|got=wrong-node|backend="+be, want)
 }
 
 func (w *c08World) judge(cl *c08Client, asker int, a c08Answer) *c08Pending {
@@ -714,6 +873,13 @@ func (w *c08World) judge(cl *c08Client, asker int, a c08Answer) *c08Pending {
 				if z.id == gotConn {
 					// the client is gone but that node has not noticed yet: either answer is defensible
 					w.run.Count("lookups_tolerated_abandoned_conn", 1)
+					return nil
+				}
+			}
+			for _, z := range cl.lost {
+				if z.id == gotConn {
+					// the connection now belongs to another identity but is still open
+					w.run.Count("lookups_tolerated_lost_conn", 1)
 					return nil
 				}
 			}
@@ -793,7 +959,7 @@ func (w *c08World) judge(cl *c08Client, asker int, a c08Answer) *c08Pending {
 // ---------------------------------------------------------------- exhaustive
 
 // alphabet of the enumeration (one client, two nodes)
-var c08Alpha = []string{"cA", "cB", "hb", "re", "zO", "x", "xd", "tB", "hz", "sw"}
+var c08Alpha = []string{"cA", "cB", "hb", "re", "zO", "x", "xd", "tB", "hz", "sw", "ri"}
 
 func (w *c08World) apply(cl *c08Client, sym string) bool {
 	switch sym {
@@ -807,6 +973,11 @@ func (w *c08World) apply(cl *c08Client, sym string) bool {
 		return w.heartbeat(cl)
 	case "re":
 		return w.relogin(cl)
+	case "ri":
+		// the other identity of the history re-authenticates on cl's current connection
+		return w.takeover(cl, w.clients[1-cl.idx])
+	case "rz":
+		return w.reloginZombie(cl)
 	case "hz":
 		return w.heartbeatZombie(cl, true)
 	case "hO":
@@ -837,7 +1008,7 @@ func c08NonTrivial(kinds []string) bool {
 		if len(k) == 2 && k[0] == 'c' {
 			connects++
 		}
-		if k == "x" || k == "xd" || k == "sw" {
+		if k == "x" || k == "xd" || k == "sw" || k == "ri" {
 			return true
 		}
 	}
@@ -859,6 +1030,7 @@ func TestVerifC08Exhaustive(t *testing.T) {
 	run.Rule(fmt.Sprintf("per backend (%s), registration lifetime 5 min, two nodes, one fresh client per sequence: every applicable sequence of %d events over {connect@A, connect@B, heartbeat, re-login on current, late cleanup of the oldest abandoned connection, close current (transport end), close current (Disconnect command), tunnel-type connection on B, late heartbeat on the newest abandoned connection, current connection closed by the node's real stale sweeper (connection aged white-box) followed by the adapter cleanup}; all nodes looked up after every event and after closing what is left; distinct = backend x event sequence; non-trivial = contains a reconnect or a close", strings.Join(c08BackendNames, ", "), depth))
 	for _, be := range c08BackendNames {
 		w := c08NewWorld(t, run, be, c08LongTTL, 2, false)
+		w.provisionSpare()
 		var rec func(seq []string)
 		rec = func(seq []string) {
 			if run.Violations() > 20 || w.herr != "" {
@@ -866,8 +1038,9 @@ func TestVerifC08Exhaustive(t *testing.T) {
 			}
 			if len(seq) == depth {
 				run.Case(be, seq)
-				w.reset(1)
+				w.reset(2)
 				cl := w.clients[0]
+				w.clients[1].id, w.clients[1].secret = w.spareID, w.spareSecret
 				for _, s := range seq {
 					if !w.apply(cl, s) {
 						w.harnessError("sequence %v: %s not applicable on replay", seq, s)
@@ -916,14 +1089,14 @@ func c08Applicable(seq []string, sym string) bool {
 			cur, known = true, true
 		case s == "zO" || s == "zN":
 			zombies--
-		case s == "x" || s == "xd" || s == "sw":
+		case s == "x" || s == "xd" || s == "sw" || s == "ri":
 			cur = false
 		}
 	}
 	switch {
 	case len(sym) == 2 && sym[0] == 'c':
 		return true
-	case sym == "hb" || sym == "re" || sym == "x" || sym == "xd" || sym == "sw":
+	case sym == "hb" || sym == "re" || sym == "x" || sym == "xd" || sym == "sw" || sym == "ri":
 		return cur
 	case sym == "zO" || sym == "zN" || sym == "hz" || sym == "hO":
 		return zombies > 0
@@ -1005,13 +1178,17 @@ func c08Pick(r *rand.Rand, cl *c08Client) string {
 		return "re"
 	case x < 90:
 		return "t" + node
-	case x < 96:
+	case x < 94:
 		if r.Intn(2) == 0 {
 			return "hO"
 		}
 		return "hz"
+	case x < 96:
+		return "sw"
+	case x < 98:
+		return "rz"
 	}
-	return "sw"
+	return "ri"
 }
 
 // ---------------------------------------------------------------- keep-alive (timed)
